@@ -1,7 +1,7 @@
 from common import COMMON_TB
 
 PROP = {
-    "suites": ["c19"],
+    "suites": ["c19", "scn-mount", "scn-struct"],
     "lean_modules": ["Lc.Props.C19"],
     "leanchecker": True,
     "trusted_base": COMMON_TB + [
@@ -11,7 +11,7 @@ PROP = {
     "assumptions": [
         "readlink results of /proc/<pid>/{cwd,root,exe,fd/*} are the canonical absolute paths of the objects (no ' (deleted)' suffixes in the generated cases)",
         "the layers directory is not '/' and is given in its canonical spelling",
-        "classification of a user as blocking umount (build/upper/work) is property C04's mountBusy; here attribution and robustness",
+        "the clause 'only use of the build, upper or work directory makes the layer un-unmountable' is judged on the command scenarios (suites scn-mount, scn-struct) by the protection oracle shared with C04; its theorems are C04's classify_* and umount_refuses_iff",
     ],
     "rule": "each case spawns 1-4 helper processes whose cwd / root (chroot) / executable / open files and directories lie at generated places: inside layers with prefix-related names (d1, d1x, d1-2, d1~removed), at several depths, in build / overlayfs/upperdir / packages / buildx, in the layers directory itself, or next to it (layersX); 15% of the helpers are killed between open and readdir of /proc/<pid>/fd. The oracle recomputes the expected attribution from the helper description by splitting the path into components (independent of the code's index arithmetic) and requires the scan to succeed. distinct = distinct case JSON.",
 }
